@@ -1,4 +1,5 @@
 import PysnarkModel.Lemmas.Poseidon
+import PysnarkModel.Gen.Api
 import PysnarkModel.Lemmas.Select
 import PysnarkModel.Props.C19
 import PysnarkModel.Spec.Curves
@@ -562,5 +563,13 @@ example : paramsInUse (selCfg [] none (Gen.backends.dropLast.map Prod.snd) false
 example : (∀ d ∈ derivedModules, d ∉ (selCfg ["pysnark.zkinterface.backend"] none [] false).preimported) ∧
     ¬ (∀ d ∈ derivedModules,
         d ∉ (derivedPreimportCfg "pysnark.zkinterface.backendbellman").preimported) := by decide
+
+
+/-- **API surface pinned** (regenerated from the source on every run, `Gen/Api.lean`): the functions this property's model
+transcribes are exactly the functions the code has; an added or removed function changes the generated list and this
+obligation fails (the tie is then broken by construction and the check runs its extended search). -/
+theorem C20_api_surface :
+    Gen.api_poseidon_hash = ["matmul", "transpose", "permute", "poseidon_hash"] ∧
+    Gen.api_ggh_hash = ["bitlength", "SHA512_prng", "int_to_bits", "bool_arr", "ggh_hash_plain", "ggh_hash_nonplain", "rand_bits", "ggh_hash"] := ⟨rfl, rfl⟩
 
 end Pysnark
